@@ -412,6 +412,8 @@ def run(ctx: Ctx):
     # a restarted controller reads the history back: the header must be there whatever state the file was in
     from .c16 import history_header_rule
     history_header_rule(ctx, "S1")
+    from . import ckpt_table as CT
+    CT.check(ctx, "G12", "S9")  # (what a restarted controller finds on disk: the files of the last and the best epoch, each with its own parameters)
     # S7 (continued): `log10_learning_rate` is None for 'keep the optimizer's own rate' and a number otherwise - 0.0 (a rate of exactly
     # one) included. It may only be tested against None; a truthiness test treats the rate 1.0 as 'not configured' in one place while
     # the other place (correctly) applies it, so the history records a rate the optimizer does not run at.
